@@ -137,8 +137,13 @@ func (t *validatingTarget) Write(p []byte) (n int, err error) {
 	if err == nil {
 		t.writtenPayload += uint64(n)
 	}
+	writeErr := err
 
 	err = t.checkQuotaLimits(t.cachedHeader, t.writtenPayload)
+	if err == nil {
+		// the quota check must not hide a failed write: the chunk was not accepted
+		err = writeErr
+	}
 
 	return
 }
